@@ -149,6 +149,75 @@ fn sequential_sweep(v: &Verdicts, rng: &mut Rng, thorough: bool, secondary: bool
             );
         }
     }
+    // absent because it was removed (round 10): a key that reached some version, was or was not written to disk by a
+    // snapshot, was removed, and whose removal was or was not snapshotted, is an absent key for the version rule - a
+    // versioned write to it succeeds whatever version it presents (below, at or above anything the key had before, or
+    // the one get-safe reports for it now), and the same commands give the same answers whether or not a snapshot
+    // happened in between. Real data directory, snapshots written by the node's timer action.
+    if !secondary {
+        let dir = fresh_dir("c02-removed");
+        let mut dnode = Node::start(NodeOpts::simple(&dir));
+        dnode.set_role(ClusterRole::Primary);
+        let mut adm = Session::new();
+        adm.call(&dnode.dbs, "auth admin pwd");
+        adm.call(&dnode.dbs, "create-db rdb tok none");
+        adm.call(&dnode.dbs, "use-db rdb tok");
+        let mut t = Session::new();
+        t.call(&dnode.dbs, "use-db rdb tok");
+        let ddbs = dnode.dbs.clone();
+        let mut rk = 0;
+        for sets in [1usize, 2, 6] {
+            for snap_before_remove in [0u8, 1, 2] {
+                for snap_after_remove in [0u8, 1, 2] {
+                    // 9000 stands for "the version get-safe reports for the removed key"
+                    for sent in [-1i64, 0, 1, 2, 5, 6, 7, 1000, 9000] {
+                        rk += 1;
+                        let k = format!("r{}", rk);
+                        for i in 0..sets {
+                            t.call(&ddbs, &format!("set {} {}", k, 10 + i));
+                        }
+                        let (_, had) = get_safe(&mut t, &ddbs, &k);
+                        for (which, when) in [(snap_before_remove, "before"), (snap_after_remove, "after")] {
+                            if when == "after" {
+                                t.call(&ddbs, &format!("remove {}", k));
+                            }
+                            if which > 0 {
+                                adm.call(&ddbs, &format!("snapshot {}", which == 2));
+                                dnode.pump();
+                                dnode.declutter();
+                            }
+                        }
+                        let (gone_val, gone_ver) = get_safe(&mut t, &ddbs, &k);
+                        let sent_v = if sent == 9000 { gone_ver as i64 } else { sent };
+                        let line = format!("set-safe {} {} again{}", k, sent_v, rk);
+                        let r = t.call_raw(&ddbs, &line);
+                        t.drain();
+                        dnode.pump();
+                        let (val1, ver1) = get_safe(&mut t, &ddbs, &k);
+                        n += 1;
+                        let snaps = |x: u8| match x { 0 => "no-snapshot", 1 => "incremental-snapshot", _ => "reclaiming-snapshot" };
+                        classes.insert(format!("removed/{}-before-remove/{}-after-remove/{}", snaps(snap_before_remove), snaps(snap_after_remove), short(&r).split(' ').next().unwrap()));
+                        let problem = if gone_val != "<Empty>" {
+                            Some("removed-key-still-readable")
+                        } else if !matches!(r, Response::Ok {}) {
+                            Some("not-accepted")
+                        } else if val1 != format!("again{}", rk) {
+                            Some("value-not-stored")
+                        } else {
+                            None
+                        };
+                        if let Some(p) = problem {
+                            v.report(
+                                json!({"check": "sequential-rule", "case": "key-removed-before", "problem": p, "snapshot_before_the_remove": snaps(snap_before_remove), "snapshot_after_the_remove": snaps(snap_after_remove)}),
+                                json!({"sets_before": sets, "version_the_key_had": had, "get_safe_of_the_removed_key": [gone_val, gone_ver], "line": line, "reply": short(&r), "after": [val1, ver1]}),
+                            );
+                        }
+                    }
+                }
+            }
+        }
+        dnode.safe_shutdown();
+    }
     // version monotonicity over random sequential histories (per incarnation of the key)
     let hist = if thorough { 20_000 } else { 2_000 };
     for h in 0..hist {
